@@ -164,3 +164,796 @@ def smoothmax(xs, alpha):
     grad = [wi * (1 + alpha * (x - s)) for wi, x in zip(w, xs)]
     dalpha = sum(wi * x * x for wi, x in zip(w, xs)) - s * s
     return s, grad, dalpha
+
+
+# region / branch labels of an operand tuple (part of the signatures of C01 and C02)
+import math
+
+_LOG2 = math.log(2.0)
+
+
+def bucket(x):
+    """[2^k, 2^(k+1)) bucket label of a positive number"""
+    if x <= 0:
+        return "<=0"
+    k = math.floor(math.log2(x))
+    lo, hi = 2.0 ** k, 2.0 ** (k + 1)
+    f = lambda v: ("%g" % v)
+    return "[%s,%s)" % (f(lo), f(hi))
+
+
+def gammap_method(a, x):
+    """evaluation method special.gamma_incomplete_imp selects for the regularised P(a,x) (mirrors its decision tree: the region label)"""
+    is_int = is_half = False
+    if a < 30 and a <= x + 1.0 and x < 709.0:
+        fa = math.floor(a)
+        if fa == a:
+            is_int = True
+        elif abs(fa - a) == 0.5:
+            is_half = True
+    if is_int and x > 0.6:
+        return 0
+    if is_half and x > 0.2:
+        return 1
+    if x < 2.0 ** -52 and a > 1:
+        return 6
+    if x < 0.5:
+        return 2 if -0.4 / math.log(x) < a else 3
+    if x < 1.1:
+        return 2 if x * 0.75 < a else 3
+    if a > 20:
+        sigma = abs((x - a) / a)
+        if a > 200:
+            if 20 / a > sigma * sigma:
+                return 5
+        elif sigma < 0.4:
+            return 5
+    return 2 if x - 1.0 / (3.0 * x) < a else 4
+
+
+def label(op, x, par, k, ev):
+    """branch / region label of the operand tuple (part of the signature)"""
+    if op == "Log1pExp":
+        v = x[0]
+        return "(-inf,-37]" if v <= -37 else "(-37,18]" if v <= 18 else "(18,33.3]" if v <= 33.3 else "(33.3,inf)"
+    if op in ("Sigmoid", "Logistic"):
+        return "x>=0" if x[0] >= 0 else "x<0"
+    if op == "LogErfc":
+        v = x[0]
+        if v * v < 2.4607833005759251e-02:
+            return "|x|<0.157"
+        return "x>8" if v > 8 else "x in (0.157,8]" if v > 0 else "x<-0.157"
+    if op in ("Neg", "Abs"):
+        return "x>0" if x[0] > 0 else "x<0" if x[0] < 0 else "x=0"
+    if op == "Pow":
+        return "base>0" if x[0] > 0 else "base<0,integer exponent" if x[0] < 0 else "base=0"
+    if op in ("Gamma", "Lgamma"):
+        if x[0] > 0:
+            return "x>0"
+        return "x<0,Gamma>0" if gamma_sign(mpf(x[0])) > 0 else "x<0,Gamma<0"
+    if op in ("Min", "Max", "LogAdd"):
+        return "a=b" if x[0] == x[1] else "a<b" if x[0] < x[1] else "a>b"
+    if op == "LogSub":
+        return "a-b<log2" if x[0] - x[1] < _LOG2 else "a-b>=log2"
+    if op == "Div":
+        return "zero-divisor" if x[1] == 0 else "domain"
+    if op == "GammaP":
+        return "boost-method=%d" % gammap_method(par, x[0])
+    if op in ("BesselI", "LogBesselI"):
+        if par == 0 or par == 1:
+            return "v=%g" % par
+        return "v>0,x/v<0.25" if x[0] / par < 0.25 else "v>0,x/v>=0.25"
+    if op == "Mlgamma":
+        return "k=%d" % k
+    if "vt" in ev:
+        return ev["vt"].split("/")[0]
+    return "domain"
+
+
+
+
+# =============================================================================
+# Part 2: second-order jets with running error bounds, local and global check
+# =============================================================================
+import json
+from collections import Counter
+from multiprocessing import Pool
+
+INF = mpf("inf")
+
+# unit round-off of the storage type
+EPS_T = {"Real64": mpf(2) ** -53, "Real32": mpf(2) ** -24}
+# per-operation ulp allowances (DESIGN.md C01, feasibility check)
+U = {"elementary": 16, "erf": 64, "gamma": 512}
+UFAM = {}
+for _n in "Erf Erfc LogErfc".split():
+    UFAM[_n] = "erf"
+for _n in "Gamma Lgamma Mlgamma GammaP BesselI LogBesselI".split():
+    UFAM[_n] = "gamma"
+# operations the library implements as a sequence of primitives: local bound by error tracking through the
+# canonical stable decomposition of the definition
+COMPOSITE = set("Logistic Sigmoid Log1pExp LogAdd LogSub SmoothMax LogSmoothMax Vnorm Mnorm Vmean VdotV Mtrace".split())
+REDUCTIONS = set("SmoothMax LogSmoothMax Vnorm Mnorm Vmean VdotV Mtrace".split())
+# a slot whose bound exceeds this fraction of its magnitude is ill-conditioned: skipped and counted
+ILL = {"Real64": mpf("1e-6"), "Real32": mpf("0.05")}
+
+C01_TOLERANCES = {
+    "policy": "error-bound tracking (DESIGN.md 2.4): reference jets in mpmath at 60 digits, every slot carries a first-order absolute error bound",
+    "eps": "unit round-off of the storage type: 2^-53 (Real64), 2^-24 (Real32)",
+    "u (ulp allowance per primitive, in units of eps * sum|terms of the chain rule|)": U,
+    "local check, primitive operation": "|observed - reference| <= u * eps * sum|terms| per slot, operands = recorded jets (exact)",
+    "local check, composite operation": "4 x bound tracked through the canonical stable decomposition (u = 16 per primitive of the decomposition)",
+    "global check": "4 x bound tracked from the inputs through every statement; slots with bound > %s (Real64) / %s (Real32) of |slot| are "
+                    "ill-conditioned: skipped and counted" % (ILL["Real64"], ILL["Real32"]),
+    "exact": "slots outside the structural support, Hessian symmetry, accessors and Matrix.Jacobian/Hessian: bit-equal",
+}
+
+
+def en_add(a, b):
+    return (a[0] + b[0], a[1] + b[1])
+
+
+def en_sub(a, b):
+    return (a[0] - b[0], a[1] + b[1])
+
+
+def en_mul(a, b):
+    return (a[0] * b[0], abs(a[0]) * b[1] + abs(b[0]) * a[1] + a[1] * b[1])
+
+
+def en_scale(a, c):
+    return (a[0] * c, a[1] * abs(c))
+
+
+def en_inv(b):
+    m = abs(b[0])
+    if m <= b[1] or m == 0:
+        return (1 / b[0] if b[0] != 0 else INF, INF)
+    return (1 / b[0], b[1] / (m * (m - b[1])))
+
+
+EZ = (ZERO, ZERO)
+
+
+class J:
+    """second-order jet; every slot is (value, absolute error bound)"""
+    __slots__ = ("v", "g", "h", "n", "o")
+
+    def __init__(self, n, o):
+        self.n, self.o = n, o
+        self.v = EZ
+        self.g = [EZ] * n
+        self.h = {(i, j): EZ for i in range(n) for j in range(i, n)} if o >= 2 else None
+
+
+def jconst(c, n, o):
+    r = J(n, o)
+    r.v = (mpf(c), ZERO)
+    return r
+
+
+def from_record(rec, n, o):
+    """recorded jet (hex floats) -> J with zero error; slots beyond the recorded N / order read as zero"""
+    r = J(n, o)
+    r.v = (mpf(float.fromhex(rec["v"])), ZERO)
+    rn = rec.get("n", 0)
+    g = rec.get("g")
+    if g:
+        for i in range(min(n, rn)):
+            r.g[i] = (mpf(float.fromhex(g[i])), ZERO)
+    h = rec.get("h")
+    if h and o >= 2:
+        for i in range(min(n, rn)):
+            for j in range(i, min(n, rn)):
+                r.h[(i, j)] = (mpf(float.fromhex(h[i * rn + j])), ZERO)
+    return r
+
+
+UA = 8  # allowance for combining the chain-rule terms (a handful of products and sums), in units of eps * sum|terms|
+
+
+class Ctx:
+    """evaluation context: eps of the storage type, allowance u of the current primitive, underflow floor of the storage type"""
+    __slots__ = ("eps", "u", "floor")
+
+    def __init__(self, eps, u=16, floor=ZERO):
+        self.eps, self.u, self.floor = eps, u, floor
+
+
+def chain1(cx, c, A):
+    """f(A) from the coefficients c = [(f,e),(f1,e),(f2,e)]"""
+    out = J(A.n, A.o)
+    ue, fl = UA * cx.eps, cx.floor
+    out.v = (c[0][0], c[0][1] + ue * abs(c[0][0]) + fl)
+    for i in range(A.n):
+        t = en_mul(c[1], A.g[i])
+        out.g[i] = (t[0], t[1] + ue * abs(t[0]) + (fl if t[0] != 0 else ZERO))
+    if A.o >= 2:
+        for (i, j), hij in A.h.items():
+            t1 = en_mul(c[1], hij)
+            t2 = en_mul(c[2], en_mul(A.g[i], A.g[j]))
+            sa = abs(t1[0]) + abs(t2[0])
+            out.h[(i, j)] = (t1[0] + t2[0], t1[1] + t2[1] + ue * sa + (fl if sa != 0 else ZERO))
+    return out
+
+
+def chain2(cx, c, A, B):
+    """f(A,B) from c = (f, fx, fy, fxx, fxy, fyy), each (value, err)"""
+    f, fx, fy, fxx, fxy, fyy = c
+    out = J(A.n, max(A.o, B.o))
+    ue, fl = UA * cx.eps, cx.floor
+    out.v = (f[0], f[1] + ue * abs(f[0]) + fl)
+    for i in range(A.n):
+        t1, t2 = en_mul(fx, A.g[i]), en_mul(fy, B.g[i])
+        sa = abs(t1[0]) + abs(t2[0])
+        out.g[i] = (t1[0] + t2[0], t1[1] + t2[1] + ue * sa + (fl if sa != 0 else ZERO))
+    if out.o >= 2:
+        ah = A.h if A.h is not None else {}
+        bh = B.h if B.h is not None else {}
+        for (i, j) in out.h:
+            ts = [en_mul(fx, ah.get((i, j), EZ)), en_mul(fy, bh.get((i, j), EZ)), en_mul(fxx, en_mul(A.g[i], A.g[j])),
+                  en_mul(fyy, en_mul(B.g[i], B.g[j])), en_mul(fxy, en_add(en_mul(A.g[i], B.g[j]), en_mul(B.g[i], A.g[j])))]
+            sa = sum(abs(t[0]) for t in ts)
+            out.h[(i, j)] = (sum(t[0] for t in ts), sum(t[1] for t in ts) + ue * sa + (fl if sa != 0 else ZERO))
+    return out
+
+
+def j_add(cx, A, B):
+    one = (ONE, ZERO)
+    return chain2(cx, (en_add(A.v, B.v), one, one, EZ, EZ, EZ), A, B)
+
+
+def j_sub(cx, A, B):
+    return chain2(cx, (en_sub(A.v, B.v), (ONE, ZERO), (-ONE, ZERO), EZ, EZ, EZ), A, B)
+
+
+def j_mul(cx, A, B):
+    return chain2(cx, (en_mul(A.v, B.v), B.v, A.v, EZ, (ONE, ZERO), EZ), A, B)
+
+
+def j_div(cx, A, B):
+    iy = en_inv(B.v)
+    iy2 = en_mul(iy, iy)
+    q = en_mul(A.v, iy)
+    return chain2(cx, (q, iy, en_scale(en_mul(A.v, iy2), -1), EZ, en_scale(iy2, -1), en_scale(en_mul(q, iy2), 2)), A, B)
+
+
+def j_neg(cx, A):
+    return chain1(cx, [en_scale(A.v, -1), (-ONE, ZERO), EZ], A)
+
+
+def j_shift(cx, A, c):
+    """A + exact constant"""
+    return chain1(cx, [(A.v[0] + c, A.v[1]), (ONE, ZERO), EZ], A)
+
+
+def j_scale(cx, A, c):
+    return chain1(cx, [en_scale(A.v, c), (mpf(c), ZERO), EZ], A)
+
+
+DELTA = mpf(2) ** -40
+
+
+def coeffs1(cx, name, x, par, k):
+    """(f, f1, f2) of a table function at (value, err).  Every coefficient c_k gets the allowance of a backward-stable
+    evaluation, u*eps*(|c_k| + |x dc_k/dx|) (its own rounding plus one ulp of the argument), and the propagated error |dc_k/dx|*err."""
+    f, f1, f2 = MON[name]
+    v, e = x
+    c0, c1, c2 = f(v, par, k), f1(v, par, k), f2(v, par, k)
+    # third derivative by a finite difference (relative step 2^-40 at 60 digits)
+    h = v * DELTA if v != 0 else DELTA
+    try:
+        c3 = (f2(v + h, par, k) - c2) / h
+    except Exception:
+        c3 = (c2 - f2(v - h, par, k)) / h
+    ue = cx.u * cx.eps
+    av = abs(v)
+    return [(c0, abs(c1) * e + ue * (abs(c0) + av * abs(c1))),
+            (c1, abs(c2) * e + ue * (abs(c1) + av * abs(c2))),
+            (c2, abs(c3) * e + ue * (abs(c2) + av * abs(c3)))]
+
+
+def j_fun(cx, name, A, par=None, k=0):
+    return chain1(cx, coeffs1(cx, name, A.v, par, k), A)
+
+
+def all_zero_derivs(B):
+    if any(g[0] != 0 or g[1] != 0 for g in B.g):
+        return False
+    if B.h is not None and any(h[0] != 0 or h[1] != 0 for h in B.h.values()):
+        return False
+    return True
+
+
+def j_pow(cx, A, B):
+    x, ex = A.v
+    y, ey = B.v
+    fs = DY["Pow"]
+    ue = cx.u * cx.eps
+    if all_zero_derivs(B):
+        # constant exponent: a function of x alone (defined for x < 0 with integer y, x = 0 with y >= 0)
+        def cf(xx):
+            return [mp.power(xx, y), y * mp.power(xx, y - 1) if y != 0 else ZERO, y * (y - 1) * mp.power(xx, y - 2) if (y != 0 and y != 1) else ZERO,
+                    y * (y - 1) * (y - 2) * mp.power(xx, y - 3) if y not in (0, 1, 2) else ZERO]
+        c = cf(x)
+        ax = abs(x)
+        cc = [(c[i], abs(c[i + 1]) * ex + ue * (abs(c[i]) + ax * abs(c[i + 1]))) for i in range(3)]
+        if ey:
+            cc[0] = (cc[0][0], cc[0][1] + ey * abs(c[0] * mp.log(ax)))
+        return chain1(cx, cc, A)
+    if x <= 0:
+        raise OutOfDomain("Pow with a variable exponent needs a positive base")
+    vals = [fn(x, y) for fn in fs]
+    # sensitivity of every coefficient to x and y (finite differences with relative step 2^-40)
+    hx, hy = x * DELTA, (y * DELTA if y != 0 else DELTA)
+    dx = [abs(fn(x + hx, y) - v) / abs(hx) for fn, v in zip(fs, vals)]
+    dy = [abs(fn(x, y + hy) - v) / abs(hy) for fn, v in zip(fs, vals)]
+    c = [(v, a * ex + b * ey + ue * (abs(v) + abs(x) * a + abs(y) * b)) for v, a, b in zip(vals, dx, dy)]
+    return chain2(cx, c, A, B)
+
+
+def j_select(cx, A):
+    """copy of A into a scalar of the storage type (one rounding per slot)"""
+    return chain1(cx, [A.v, (ONE, ZERO), EZ], A)
+
+
+class NotDifferentiable(Exception):
+    """the value is defined, the derivatives are not (kink / tie / pole of a derivative)"""
+
+    def __init__(self, value, why):
+        self.value, self.why = value, why
+
+
+def sigmoid_j(cx, A):
+    one = jconst(1, A.n, A.o)
+    if A.v[0] >= 0:
+        e = j_fun(cx, "Exp", j_neg(cx, A))
+        return j_div(cx, one, j_shift(cx, e, ONE))
+    e = j_fun(cx, "Exp", A)
+    return j_div(cx, e, j_shift(cx, e, ONE))
+
+
+def log1pexp_j(cx, A):
+    if A.v[0] > 0:
+        return j_add(cx, A, j_fun(cx, "Log1p", j_fun(cx, "Exp", j_neg(cx, A))))
+    return j_fun(cx, "Log1p", j_fun(cx, "Exp", A))
+
+
+def logadd_j(cx, A, B):
+    if A.v[0] == -INF:
+        return j_select(cx, B)
+    if B.v[0] == -INF:
+        return j_select(cx, A)
+    m, o = (A, B) if A.v[0] >= B.v[0] else (B, A)
+    return j_add(cx, m, j_fun(cx, "Log1p", j_fun(cx, "Exp", j_sub(cx, o, m))))
+
+
+def logsub_j(cx, A, B):
+    if B.v[0] == -INF:
+        return j_select(cx, A)
+    if A.v[0] == B.v[0]:
+        raise NotDifferentiable(-INF, "LogSub of equal operands")
+    if A.v[0] < B.v[0]:
+        raise OutOfDomain("LogSub needs a > b")
+    return j_add(cx, A, j_fun(cx, "Log1p", j_neg(cx, j_fun(cx, "Exp", j_sub(cx, B, A)))))
+
+
+def j_sum(cx, js):
+    r = js[0]
+    for x in js[1:]:
+        r = j_add(cx, r, x)
+    return r
+
+
+def lse_j(cx, zs):
+    m = max(z.v[0] for z in zs)
+    return j_shift(cx, j_fun(cx, "Log", j_sum(cx, [j_fun(cx, "Exp", j_shift(cx, z, -m)) for z in zs])), m)
+
+
+def smoothmax_j(cx, xs, alpha):
+    m = max(alpha * x.v[0] for x in xs)
+    ws = [j_fun(cx, "Exp", j_shift(cx, j_scale(cx, x, alpha), -m)) for x in xs]
+    num = j_sum(cx, [j_mul(cx, x, w) for x, w in zip(xs, ws)])
+    return j_div(cx, num, j_sum(cx, ws))
+
+
+def logsmoothmax_j(cx, xs, alpha):
+    if any(x.v[0] <= 0 for x in xs):
+        raise OutOfDomain("LogSmoothMax needs positive elements")
+    zs = [j_scale(cx, x, alpha) for x in xs]
+    num = lse_j(cx, [j_add(cx, z, j_fun(cx, "Log", x)) for z, x in zip(zs, xs)])
+    return j_fun(cx, "Exp", j_sub(cx, num, lse_j(cx, zs)))
+
+
+def norm_j(cx, xs):
+    s = j_sum(cx, [j_mul(cx, x, x) for x in xs])
+    if s.v[0] == 0:
+        raise NotDifferentiable(ZERO, "norm of the zero vector")
+    return j_fun(cx, "Sqrt", s)
+
+
+FLOOR = {"Real64": mpf(2) ** -1022, "Real32": mpf(2) ** -126}
+
+
+def apply_op(T_, op, args, args2, par, k, shape):
+    """the mathematical operation on jets (with error bounds).  Raises OutOfDomain / NotDifferentiable."""
+    cx = Ctx(EPS_T[T_], U[UFAM.get(op, "elementary")], FLOOR[T_])
+    A = args[0]
+    if op in ("Add", "Sub", "Mul", "Div"):
+        if op == "Div" and args[1].v[0] == 0:
+            raise OutOfDomain("division by zero")
+        return {"Add": j_add, "Sub": j_sub, "Mul": j_mul, "Div": j_div}[op](cx, A, args[1])
+    if op == "Neg":
+        return j_neg(cx, A)
+    if op == "Abs":
+        if A.v[0] == 0:
+            raise NotDifferentiable(ZERO, "Abs at 0")
+        return j_select(cx, A) if A.v[0] > 0 else j_neg(cx, A)
+    if op in ("Min", "Max"):
+        a, b = A.v[0], args[1].v[0]
+        if a == b:
+            raise NotDifferentiable(a, op + " of equal operands")
+        return j_select(cx, A if ((a < b) == (op == "Min")) else args[1])
+    if op == "Pow":
+        return j_pow(cx, A, args[1])
+    if op == "Sqrt":
+        if A.v[0] < 0:
+            raise OutOfDomain("Sqrt of a negative number")
+        if A.v[0] == 0:
+            raise NotDifferentiable(ZERO, "Sqrt at 0")
+    if op in ("Logistic", "Sigmoid"):
+        return sigmoid_j(cx, A)
+    if op == "Log1pExp":
+        return log1pexp_j(cx, A)
+    if op == "LogAdd":
+        return logadd_j(cx, A, args[1])
+    if op == "LogSub":
+        return logsub_j(cx, A, args[1])
+    if op == "SmoothMax":
+        return smoothmax_j(cx, args, par)
+    if op == "LogSmoothMax":
+        return logsmoothmax_j(cx, args, par)
+    if op in ("Vnorm", "Mnorm"):
+        return norm_j(cx, args)
+    if op == "Vmean":
+        return j_scale(cx, j_sum(cx, args), ONE / len(args))
+    if op == "VdotV":
+        return j_sum(cx, [j_mul(cx, a, b) for a, b in zip(args, args2)])
+    if op == "Mtrace":
+        rows, cols = shape
+        return j_sum(cx, [args[i * cols + i] for i in range(rows)])
+    if op in MON:
+        x = A.v[0]
+        if op in ("Log",) and x <= 0 or op == "Log1p" and x <= -1:
+            raise OutOfDomain(op)
+        if op in ("Gamma", "Lgamma") and x <= 0 and x == mp.floor(x):
+            raise OutOfDomain("pole")
+        if op == "Mlgamma" and x <= mpf(k - 1) / 2:
+            raise OutOfDomain("Mlgamma")
+        if op in ("GammaP", "BesselI", "LogBesselI") and x <= 0:
+            raise OutOfDomain(op)
+        r = j_fun(cx, op, A, par, k)
+        if op == "Lgamma" and gamma_sign(x) < 0:
+            r.v = ("nan", ZERO)  # library convention: log Gamma is not real where Gamma < 0
+        return r
+    raise KeyError(op)
+
+
+def hexf(s):
+    return float.fromhex(s)
+
+
+def resolve(ref, inputs, results, n, o):
+    kind = ref[0]
+    if kind == "v":
+        return inputs[ref[1]]
+    if kind == "n":
+        return results[ref[1]]
+    return jconst(hexf(ref[1]), n, o)
+
+
+def slot_items(rec, n, o):
+    """observed slots of a recorded jet as {(kind,i,j): float}"""
+    out = {("value", 0, 0): hexf(rec["v"])}
+    rn, ro = rec.get("n", 0), rec.get("o", 0)
+    g, h = rec.get("g"), rec.get("h")
+    for i in range(n):
+        out[("grad", i, 0)] = hexf(g[i]) if (g and i < rn) else 0.0
+    if o >= 2:
+        for i in range(n):
+            for j in range(i, n):
+                out[("hess", i, j)] = hexf(h[i * rn + j]) if (h and i < rn and j < rn) else 0.0
+    return out
+
+
+def expected_items(E):
+    out = {("value", 0, 0): E.v}
+    for i in range(E.n):
+        out[("grad", i, 0)] = E.g[i]
+    if E.h is not None:
+        for (i, j), x in E.h.items():
+            out[("hess", i, j)] = x
+    return out
+
+
+def isfinite(x):
+    return mp.isfinite(x)
+
+
+def compare(obs, exp, factor, support, ill=None):
+    """-> list of (kind, i, j, observed, expected, err, tol), number judged, number skipped"""
+    bad, judged, skipped = [], 0, 0
+    worst = 0.0
+    for key, ob in obs.items():
+        kind, i, j = key
+        ev = exp.get(key)
+        if ev is None:
+            continue
+        val, err = ev
+        if val == "nan":
+            judged += 1
+            if ob == ob:
+                bad.append((kind, i, j, ob, "NaN (log Gamma where Gamma < 0)", None, None))
+            continue
+        if not (isfinite(val) and isfinite(err)):
+            if kind == "value" and val in (INF, -INF) and err == 0:
+                judged += 1
+                if ob != float(val):
+                    bad.append((kind, i, j, ob, val, None, None))
+            else:
+                skipped += 1
+            continue
+        if ill is not None and err > ill * abs(val):
+            skipped += 1
+            continue
+        judged += 1
+        k2 = kind
+        if kind != "value" and support is not None and (i not in support or (kind == "hess" and j not in support)):
+            k2 = "zero"
+        if ob != ob or ob in (float("inf"), float("-inf")):
+            bad.append((k2, i, j, ob, val, None, factor * err))
+            continue
+        d = abs(mpf(ob) - val)
+        tol = factor * err
+        if d > tol:
+            bad.append((k2, i, j, ob, val, d, tol))
+        elif tol > 0:
+            worst = max(worst, float(d / tol))
+    return bad, judged, skipped, worst
+
+
+def stmt_label(st, args, par, k):
+    op = st["op"]
+    xs = [float(a.v[0]) if a.v[0] not in (INF, -INF) else float(a.v[0]) for a in args[:2]]
+    if op in REDUCTIONS:
+        return st.get("st", "dense")
+    lab = label(op, xs, par, k, {})
+    if op == "Pow":
+        lab += ",variable exponent" if not all_zero_derivs(args[1]) else ",constant exponent %s" % (
+            "1" if xs[1] == 1 else "0" if xs[1] == 0 else "2" if xs[1] == 2 else "integer" if xs[1] == int(xs[1]) else "non-integer")
+    if op == "Tanh":
+        lab = "|x|<=4" if abs(xs[0]) <= 4 else "|x|>4"
+    if op in ("BesselI", "LogBesselI"):
+        v = float(par)
+        lab = ("v=%g" % v if v in (0, 1, 2) else "0<v<2" if v < 2 else "v>2") + (",x/v<0.25" if (v > 0 and xs[0] / v < 0.25) else "")
+    if op in ("Logistic", "Sigmoid", "Erf", "Erfc"):
+        a = abs(xs[0])
+        lab = ("x>=0" if xs[0] >= 0 else "x<0") + (",|x|<=4" if a <= 4 else ",|x|>4")
+    if op == "Log1pExp" and lab == "(-37,18]":
+        lab = "(-37,4]" if xs[0] <= 4 else "(4,18]"
+    if op == "LogErfc" and lab == "x in (0.157,8]":
+        lab = "x in (0.157,3]" if xs[0] <= 3 else "x in (3,8]"
+    if op in ("LogAdd", "LogSub") and (xs[0] == float("-inf") or xs[1] == float("-inf")):
+        lab = "operand=-Inf"
+    return lab
+
+
+def judge_program(ev, out):
+    T_, order, N = ev["T"], ev["order"], ev["N"]
+    eps = EPS_T[T_]
+    cfg = T_
+    case = ev.get("case")
+    cov = out["cov"]
+    direct = ev.get("direct")
+
+    def viol(mon, op, lab, kind, detail, si=None):
+        w = {"T": T_, "order": order, "N": N, "inputs": ev["inputs"], "stmts": ev["stmts"], "failed_statement": si}
+        out["viol"].append({"case": case, "sig": "C01|%s|%s|%s|%s|%s" % (mon, op, cfg, lab, kind), "detail": detail, "witness": w})
+
+    # inputs
+    inputs = [from_record(r, N, order) for r in ev["inputs"]]
+    supp_in = []
+    for i, r in enumerate(ev["inputs"]):
+        if direct:
+            supp_in.append(set(range(N)))
+            continue
+        supp_in.append({i})
+        want = {("value", 0, 0): hexf(r["v"])}
+        ob = slot_items(r, N, order)
+        okseed = r.get("n") == N and r.get("o") == order and all(
+            v == (1.0 if (k[0] == "grad" and k[1] == i) else (ob[("value", 0, 0)] if k[0] == "value" else 0.0)) for k, v in ob.items())
+        cov["seed-judged"] += 1
+        if not okseed:
+            viol("seed", "Variables" if ev.get("seedmode") == 0 else "SetVariable", "any", "seed", "input %d after activation: %s" % (i, json.dumps(r)))
+    results, supports = [], []
+    gl = list(inputs)           # global evaluation: jets with tracked error from the inputs
+    gres = []
+    glob_ok = True
+    local_failed = False
+    stmts = ev["stmts"]
+    pan = ev.get("panic")
+    for si, st in enumerate(stmts):
+        op = st["op"]
+        par = mpf(hexf(st["par"])) if "par" in st else None
+        k = st.get("k", 0)
+        shape = st.get("shape")
+        refs, refs2 = st["a"], st.get("b") or []
+        args = [resolve(r, inputs, results, N, order) for r in refs]
+        args2 = [resolve(r, inputs, results, N, order) for r in refs2]
+        supp = set()
+        for r in refs + refs2:
+            if r[0] == "v":
+                supp |= supp_in[r[1]]
+            elif r[0] == "n":
+                supp |= supports[r[1]]
+        lab = stmt_label(st, args, par, k)
+        cov["stmt:%s" % op] += 1
+        cov["branch:%s:%s" % (op, lab)] += 1
+        for r in refs + refs2:
+            cov["operand-kind:" + r[0]] += 1
+        if "res" not in st:
+            # the statement panicked: judged if the operands are inside the mathematical domain
+            try:
+                apply_op(T_, op, args, args2, par, k, shape)
+                indomain = True
+            except (OutOfDomain, ZeroDivisionError, ValueError, TypeError):
+                indomain = False
+            except NotDifferentiable:
+                indomain = True
+            if pan and indomain:
+                viol("exec", pan.get("frame", "?"), st.get("stale", "clean"), "panic",
+                     "statement %d (%s) panicked inside its domain: %s" % (si, op, pan.get("msg", "")), si)
+            else:
+                cov["skipped:panic-out-of-domain-after-divergence"] += 1
+            break
+        rec = st["res"]
+        # expected N / order of the result: those of the operands
+        want_n = max([0] + [ev["inputs"][r[1]].get("n", 0) if r[0] == "v" else stmts[r[1]]["res"].get("n", 0) for r in refs + refs2 if r[0] in "vn"])
+        want_o = max([0] + [ev["inputs"][r[1]].get("o", 0) if r[0] == "v" else stmts[r[1]]["res"].get("o", 0) for r in refs + refs2 if r[0] in "vn"])
+        if want_o == 0 or want_n == 0:
+            want_n = want_o = 0
+        rn_, ro_ = rec.get("n", 0), rec.get("o", 0)
+        if ro_ > want_o or (ro_ >= 1 and rn_ > want_n):
+            # derivative state that cannot come from the operands: left over in the receiver
+            viol("local", op, st.get("stale", "clean"), "order",
+                 "statement %d (%s): the result reports N=%d, order=%d; its operands carry N=%d, order=%d (state before the call: %s)" % (
+                     si, op, rn_, ro_, want_n, want_o, st.get("stale", "clean")), si)
+            cov["skipped:contaminated-by-stale-receiver"] += 1
+            glob_ok = False
+            break
+        obs = slot_items(rec, N, order)
+        results.append(from_record(rec, N, order))
+        supports.append(supp)
+        # ---- local check
+        try:
+            E = apply_op(T_, op, args, args2, par, k, shape)
+            exp = expected_items(E)
+        except NotDifferentiable as e:
+            exp = {("value", 0, 0): (e.value, ZERO)}
+            cov["not-differentiable:" + e.why] += 1
+        except (OutOfDomain, ZeroDivisionError, ValueError, TypeError) as e:
+            cov["skipped:out-of-domain:" + op] += 1
+            glob_ok = False
+            gl_res = None
+            gres.append(None)
+            continue
+        factor = 4 if op in COMPOSITE else 1
+        bad, judged, skipped, worst = compare(obs, exp, factor, None if direct else supp)
+        out["evals"] += 1
+        cov["local-slots-judged"] += judged
+        cov["local-slots-skipped"] += skipped
+        key = op + "/" + T_[-2:]
+        if worst > out["worst"].get(key, 0):
+            out["worst"][key] = worst
+        seen = set()
+        for (kind, i, j, ob, val, d, tol) in bad:
+            if kind in seen:
+                continue
+            seen.add(kind)
+            local_failed = True
+            viol("local", op, lab, kind,
+                 "order %d, statement %d: %s%s slot (%d,%d) = %r, reference %s%s" % (
+                     order, si, op, "(par=%s)" % mp.nstr(par, 6) if par is not None else "", i, j, ob,
+                     val if isinstance(val, str) else mp.nstr(val, 17),
+                     "" if d is None else "; |error| %s > tolerance %s" % (mp.nstr(d, 3), mp.nstr(tol, 3))), si)
+        # ---- global evaluation
+        if glob_ok and not direct:
+            try:
+                ga = [resolve(r, gl[:len(inputs)], gres, N, order) for r in refs]
+                gb = [resolve(r, gl[:len(inputs)], gres, N, order) for r in refs2]
+                if any(x is None for x in ga + gb):
+                    raise OutOfDomain("upstream")
+                g = apply_op(T_, op, ga, gb, par, k, shape)
+                gres.append(None if g.v[0] == "nan" else g)
+            except (NotDifferentiable, OutOfDomain, ZeroDivisionError, ValueError, TypeError):
+                gres.append(None)
+        else:
+            gres.append(None)
+    else:
+        # every statement ran: global check of the final node
+        if not direct and stmts:
+            if local_failed:
+                cov["global-skipped:local-violation-in-program"] += 1
+            elif gres and gres[-1] is not None:
+                E = gres[-1]
+                if E.v[0] == "nan":
+                    cov["global-skipped:nan-convention"] += 1
+                else:
+                    obs = slot_items(stmts[-1]["res"], N, order)
+                    bad, judged, skipped, worst = compare(obs, expected_items(E), 4, supports[-1], ILL[T_])
+                    cov["global-programs-judged"] += 1
+                    cov["global-slots-judged"] += judged
+                    cov["global-slots-ill-conditioned"] += skipped
+                    if worst > out["worst"].get("global/" + T_[-2:], 0):
+                        out["worst"]["global/" + T_[-2:]] = worst
+                    seen = set()
+                    for (kind, i, j, ob, val, d, tol) in bad:
+                        if kind in seen:
+                            continue
+                        seen.add(kind)
+                        viol("global", stmts[-1]["op"], "%d statements" % len(stmts), kind,
+                             "final node slot (%d,%d) = %r, whole program from the inputs gives %s%s" % (
+                                 i, j, ob, mp.nstr(val, 17), "" if d is None else "; |error| %s > tolerance %s" % (mp.nstr(d, 3), mp.nstr(tol, 3))))
+            else:
+                cov["global-skipped:not-evaluable"] += 1
+
+
+def work(chunk):
+    mp.mp.dps = 60
+    out = {"viol": [], "cov": Counter(), "evals": 0, "worst": {}, "errors": []}
+    for ev in chunk:
+        try:
+            judge_program(ev, out)
+        except Exception as e:  # a defect of the oracle must be visible
+            import traceback
+            out["errors"].append("oracle exception on case %s: %r %s" % (ev.get("case"), e, traceback.format_exc()[-600:]))
+    return out
+
+
+def judge(files, opts):
+    events = []
+    for f in files:
+        try:
+            with open(f) as fh:
+                for line in fh:
+                    if '"ev":"data"' not in line:
+                        continue
+                    try:
+                        e = json.loads(line)
+                    except Exception:
+                        continue
+                    if e.get("ev") == "data" and "stmts" in e:
+                        events.append(e)
+        except FileNotFoundError:
+            pass
+    ncpu = max(1, min(opts.get("ncpu", 4), 16))
+    nchunk = ncpu * 8
+    chunks = [c for c in (events[i::nchunk] for i in range(nchunk)) if c]
+    if len(events) < 20:
+        outs = [work(c) for c in chunks]
+    else:
+        with Pool(ncpu) as pool:
+            outs = pool.map(work, chunks)
+    viols, cov, evals, worst, errors = [], Counter(), 0, {}, []
+    for o in outs:
+        viols += o["viol"]
+        cov.update(o["cov"])
+        evals += o["evals"]
+        errors += o["errors"]
+        for k, v in o["worst"].items():
+            worst[k] = max(worst.get(k, 0), v)
+    if errors:
+        viols.append({"case": None, "sig": "C01|oracle|internal|error", "detail": " ;; ".join(errors[:3]), "witness": None})
+    samples = [{"monitor": "oracle", "worst |error|/tolerance of accepted slots per operation and type": {k: round(v, 3) for k, v in sorted(worst.items())}}]
+    return {"violations": viols, "coverage": dict(cov), "nontrivial": [], "samples": samples, "evaluations": evals,
+            "note": "offline oracle: independent second-order jet arithmetic with error-bound tracking (driver/oracles/c01.py, mpmath %s, 60 digits)" % mp.__version__}
